@@ -217,11 +217,17 @@ def oracle_reparse(cmd, line):
 
 SETTERS = ["href", "protocol", "username", "password", "host", "hostname", "port", "pathname", "search", "hash"]
 
+# Values that are meaningful to a parser state other than the one a setter starts in: a quirk that leaks from one
+# state into a setter (drive letters, authority markers, dot segments, scheme text) shows only on these.
+CROSS_VALUES = ["C:", "c|", "C:/", "d|?x", "C|/x", "/C:/", "C:\\", "Z|#f", "//h", "\\\\h", "@", "u@h", "u:p@h", ":80", "h:80", "?q", "#f", "/p", "..", "/..", "%2e%2e", ".",
+                "[::1]", "1.2.3.4", "0x7f.1", "file:", "http://x", "a:b", " ", "\t", "localhost", "LOCALHOST", "xn--", "%41", "\u00fc", "h/../..", "h?q#f", "80x", "/.//x"]
+
 def gen_setter_call(r, allow_protocol=True):
     w = r.choice(SETTERS if allow_protocol else [s for s in SETTERS if s != "protocol"])
     if w == "href": v = gens.gen_url(r)
     elif w == "protocol": v = r.choice(gens.SPECIAL + gens.NONSPECIAL + ["file", "FILE", "http:", "https://x", "h t", "", "1a", "a:b", "file:", "ws\t", "\u00e9"]) + r.choice(["", ":", "://"])
     elif w in ("username", "password"): v = r.choice(["", "u", "p w", "a@b", "a:b", "a/b?c#d", "\u00fc", "%41", "%zz", "[]^|;=\\", "\t\n x", "\x00\x7f"])
+    elif r.random() < 0.12: v = r.choice(CROSS_VALUES)      # values that mean something in ANOTHER parser state
     elif w in ("host", "hostname"): v = r.choice(["", gens.gen_host(r), gens.gen_host(r) + r.choice(gens.PORTS), gens.gen_host(r) + "/x", "h:99?q", "h#f", "h\\x", "a@b", ":80", "[::1]:1", " h", "h\t\n", "x:y"])
     elif w == "port": v = r.choice(["", "0", "80", "443", "21", "8080", "65535", "65536", "99999", "000080", "1x", "x", "-1", " 1", "1 ", "\t8\n0", "8080/p", "4294967377", "080"])
     elif w == "pathname": v = r.choice(["", "/", "//", "///", "/.//", "/a/..//", "a", "/a/b", "..", "/../x", "%2e%2E/y", "\\x\\y", "?", "#", "/a?b#c", "//x", "/.//x", "C|/x", "/C:/../..", " x ", "\t/\n", "\u00fc", "/\x00"]) if r.random() < 0.7 else gens.gen_path(r)
@@ -653,6 +659,14 @@ def stream_filepath(ctx, r):
     for rep in range(scale(ctx, 500, 10000)):
         u = "file://" + r.choice(["", "", "host", ".", "h.", "%2e", "1.1", "[::1]"]) + "/" + "/".join("".join(r.choice(["a", ".", "%2e", "%2F", "%5C", "%00", "C:", "C|", "%43%3A", "", "%FF", "%C3%BC", " ", "|"]) for _ in range(r.randint(0, 3))) for _ in range(r.randint(0, 4)))
         lines.append("parse 0 %s -" % tok(u)); lines.append("tofile 0 %s" % r.choice(["posix", "windows"]))
+    # URL -> path, aimed at each branch of path_from_file_url separately (drive letter without host, UNC by
+    # host, UNC by four slashes) with the bytes every branch must refuse placed after the branch is chosen
+    for rep in range(scale(ctx, 500, 10000)):
+        head = r.choice(["/C:", "/c|", "/C%3A", "/%43:", "/Z:", "/C:x", "//host/share", "///host/share", "/share", "", "/C:/..", "/C|/."])
+        host = r.choice(["", "", "", "localhost", "host", "h.", "1.1"])
+        tail = "".join("/" + "".join(r.choice(["a", ".", "%2e", "%2F", "%5C", "%00", "%00", "b", "%7C", "%3A", ":", "|", " ", "%C3%BC", "%FF", "%0A"]) for _ in range(r.randint(0, 3))) for _ in range(r.randint(0, 3)))
+        lines.append("parse 0 %s -" % tok("file://" + host + head + tail)); lines.append("tofile 0 windows")
+        if r.random() < 0.3: lines.append("tofile 0 posix")
     return [Case(lines[i:i + 1500], "filepath") for i in range(0, len(lines), 1500)]
 
 def oracle_filepath(cmd, line):
